@@ -378,6 +378,10 @@ class ResourceLeakFixer(MetadataPreservingTransformer, NameAndAncestorResolution
         self, name: cst.Name, block: cst.Module | cst.IndentedBlock, index: int
     ) -> bool:
         accesses = self.find_accesses(name)
+        scope = self.get_metadata(ScopeProvider, name, None)
+        # captured by a nested function or lambda: may be used after the block
+        if any(a.scope is not scope for a in accesses):
+            return True
         for node in (a.node for a in accesses):
             # returned or yielded
             if self.is_return_value(node) or self.is_yield_value(node):
